@@ -88,6 +88,22 @@ def writer_entry(p, v, sv, ev):
     raise AnalysisError("unrecognised value for placeholder %s: %s" % (p, norm(v)))
 
 
+def _format_keywords(call, flow):
+    """keyword -> value of template.format(...): explicit keywords plus the entries of every `**table` that is statically a table
+    (user supplied mappings such as **fill are not)"""
+    from ..flow import dict_entries
+    kws = {}
+    for k in call.keywords:
+        if k.arg:
+            kws[k.arg] = k.value
+        else:
+            ent = dict_entries(k.value, flow, call)
+            if ent is not None:
+                for name, v in ent:
+                    kws.setdefault(name, v)
+    return kws
+
+
 def rule_table(ctx):
     ctx.rule("C02.table", "T3", "get_filename writes every documented temporal placeholder from the right object and field with the width its regex reads")
     f = ctx.func(FILESET, "FileSet.get_filename")
@@ -95,7 +111,7 @@ def rule_table(ctx):
     fc = [c for c in calls_in(f.node, "format") if isinstance(c.func, ast.Attribute) and norm(c.func.value) == f.params[2]]
     if not fc:
         raise AnalysisError("get_filename: template.format(...) not found")
-    kws = {k.arg: k.value for k in fc[0].keywords if k.arg}
+    kws = _format_keywords(fc[0], flow)
     # names of the start / end time objects
     sv = ev = None
     for st in flow.stmts:
@@ -181,7 +197,7 @@ def rule_doy_subsec(ctx):
     ctx.rule("C02.doy", "T5", "day of year: writer offset +1 and reader offset -1 relative to 1 January of the same year")
     f = ctx.func(FILESET, "FileSet.get_filename")
     fc = [c for c in calls_in(f.node, "format") if isinstance(c.func, ast.Attribute) and norm(c.func.value) == f.params[2]][0]
-    kws = {k.arg: k.value for k in fc.keywords if k.arg}
+    kws = _format_keywords(fc, Flow(f))
     offs = []
     for p in ("doy", "end_doy"):
         fw = _fmt_width(kws[p]) if p in kws else None
@@ -205,7 +221,8 @@ def rule_doy_subsec(ctx):
                 d, td = td, d
             okd = isinstance(d, ast.Call) and dotted(d.func) == "datetime" and [norm(x).replace('"', "'") for x in d.args] == ["%s['year']" % a, "1", "1"]
             try:
-                lf = linear_form(td.args[0], {"doy": "D"}, consts=True) if td.args else None
+                targ = td.args[0] if td.args else next((k.value for k in td.keywords if k.arg == "days"), None)
+                lf = linear_form(targ, {"doy": "D"}, consts=True) if targ is not None else None
             except AnalysisError:
                 lf = None
             ok = okd and lf == {"D": 1, 1: -1}
@@ -225,18 +242,18 @@ def rule_doy_subsec(ctx):
         for nm in ("decisecond", "centisecond", "millisecond", "microsecond"):
             for q in ("'", '"'):
                 env["%s.pop(%s%s%s, 0)" % (a, q, nm, q)] = nm
+        from ..flow import closed_form
+        subval = closed_form(sub.value, sub)
         try:
             # weights: evaluate with unit vectors
             w = {}
             for nm in ("decisecond", "centisecond", "millisecond", "microsecond"):
                 e = {k: (1 if v == nm else 0) for k, v in env.items()}
-                it = Interp(e)
-                it_ev = _ev_arith(sub.value, e)
-                w[nm] = it_ev
+                w[nm] = _ev_arith(subval, e)
             oks = w == {"decisecond": 100000, "centisecond": 10000, "millisecond": 1000, "microsecond": 1}
             fact = w
         except AnalysisError as ex:
-            fact = str(ex)
+            raise AnalysisError("_standardise_datetime_args: sub-second expression %s outside the linear class (%s)" % (norm(subval)[:80], ex))
     ctx.ob("FileSet._standardise_datetime_args.microsecond", oks, "weights %s" % (fact if sub is not None else None),
            "microsecond = 100000*deci + 10000*centi + 1000*milli + micro", node=sub or g.node, func=g)
 
@@ -305,20 +322,42 @@ def rule_endfill(ctx):
     # the superior unit
     g = ctx.func(FILESET, "FileSet._get_superior_time_resolution")
     gflow = Flow(g)
-    A = {}
+    # the index of the decisive resolution: <list of the table's values>.index(max(<resolutions of the given fields>))
+    idx = [c for c in calls_in(g.node, "index") if isinstance(c.func, ast.Attribute) and len(c.args) == 1]
+    if len(idx) != 1:
+        raise AnalysisError("_get_superior_time_resolution: expected one <resolutions>.index(...) call")
+    ist = enclosing_stmt(idx[0])
+    iname = ist.targets[0].id if isinstance(ist, ast.Assign) and isinstance(ist.targets[0], ast.Name) else None
+    if iname is None:
+        raise AnalysisError("_get_superior_time_resolution: the index is not bound to a name")
+    seq = norm(gflow.resolve(idx[0].func.value, at=idx[0], depth=2)).replace(" ", "")
+    arg = gflow.resolve(idx[0].args[0], at=idx[0], depth=3, stop=(g.params[0],))
+    sel = dotted(arg.func) if isinstance(arg, ast.Call) else None
+    oks = seq == "list(FileSet._temporal_resolution.values())" and sel in ("max", "min") and "_temporal_resolution[" in norm(arg)
+    coarsest = sel == "max"
+    rets = [r_ for r_ in gflow.stmts if isinstance(r_, ast.Return) and r_.value is not None and not (isinstance(r_.value, ast.Constant) and r_.value.value is None)]
+    sup_txt = None
+    if len(rets) == 1:
+        rv = gflow.resolve(rets[0].value, at=rets[0], depth=3, stop=(iname,))
+        subs = [n_ for n_ in ast.walk(rv) if isinstance(n_, ast.Subscript) and iname in norm(n_.slice)]
+        if len(subs) == 1:
+            sup_txt = norm(subs[0]).replace(" ", "")
+    else:
+        raise AnalysisError("_get_superior_time_resolution: expected one non-None return")
+    ok_sup = sup_txt in ("list(FileSet._temporal_resolution.values())[%s-1]" % iname,)
+    from ..flow import arms
+    zero = []
     for st in gflow.stmts:
-        if isinstance(st, ast.Assign) and isinstance(st.targets[0], ast.Name):
-            A[st.targets[0].id] = st
-    hr = A.get("highest_resolution")
-    sup = A.get("superior_resolution")
-    tab = _table(ctx, "_temporal_resolution")
-    oks = hr is not None and isinstance(hr.value, ast.Call) and dotted(hr.value.func) == "max" and "_temporal_resolution[" in norm(hr.value) \
-        and sup is not None and norm(sup.value).replace(" ", "") == "resolutions[highest_resolution_index-1]"
-    zero = [st for st in gflow.stmts if isinstance(st, ast.If) and norm(st.test) == "highest_resolution_index == 0" and norm(st.body[0]) == "return None"]
-    ctx.ob("FileSet._get_superior_time_resolution", oks and bool(zero), "coarsest end field: %s; superior: %s; year: %s" % (
-        norm(hr.value)[:70] if hr else None, norm(sup.value) if sup else None, [norm(z) for z in zero][:1]),
+        if isinstance(st, ast.If):
+            ab = arms(st, "%s == 0" % iname, parent(st).body if hasattr(parent(st), "body") else None)
+            if ab is not None and ab[0] and norm(ab[0][0]) == "return None":
+                zero.append(st)
+    if sel is None:
+        raise AnalysisError("_get_superior_time_resolution: the decisive resolution is not selected by max()/min()")
+    ctx.ob("FileSet._get_superior_time_resolution", oks and coarsest and ok_sup and bool(zero), "decisive end field: %s of %s; superior: %s; year guard: %s" % (
+        sel, norm(arg)[:60], sup_txt, [norm(z.test) for z in zero][:1]),
         "the COARSEST end field (max of the descending table) decides; the roll-over is one unit of the next coarser entry (index - 1); None for the year",
-        node=hr or g.node, func=g)
+        node=ist, func=g)
     # path setter feeds it with the end placeholders of the path, prefix stripped
     ps = ctx.func(FILESET, "FileSet.path.setter")
     sc = [n for n in walk_no_nested(ps.node) if isinstance(n, ast.SetComp)]
@@ -337,29 +376,53 @@ def rule_endfill(ctx):
 def rule_default_end(ctx):
     ctx.rule("C02.default_end", "T1+T5", "missing end -> start + time_coverage (timedelta) or start; end without start -> ValueError; neither -> whole axis")
     f = ctx.func(FILESET, "FileSet.get_info")
-    top = [st for st in f.body if isinstance(st, ast.If) and norm(st.test) == "info.times[0] is None"]
-    if not top:
-        raise AnalysisError("get_info: branch on a missing start time not found")
-    t = top[0]
-    inner = t.body[0] if t.body and isinstance(t.body[0], ast.If) else None
-    ok_both = inner is not None and norm(inner.test) == "info.times[1] is None" and norm(inner.body[0]).replace(" ", "") == "info.times=[datetime.min,datetime.max]"
-    ok_err = inner is not None and any(isinstance(s, ast.Raise) and "ValueError" in norm(s.exc) for s in inner.orelse)
-    ctx.ob("FileSet.get_info.no_start", ok_both and ok_err, "start missing: %s" % (norm(inner)[:110] if inner is not None else None),
-           "no times at all -> [datetime.min, datetime.max]; an end without a start -> ValueError", node=t, func=f)
-    el = t.orelse[0] if t.orelse and isinstance(t.orelse[0], ast.If) else None
-    ok_end = False
-    fact = None
-    if el is not None and norm(el.test) == "info.times[1] is None" and el.body and isinstance(el.body[-1], ast.If):
-        b = el.body[-1]
-        fact = norm(b)[:160]
-        ok_end = norm(b.test) == "isinstance(self.time_coverage, timedelta)" and norm(b.body[0]).replace(" ", "") == "info.times[1]=info.times[0]+self.time_coverage" \
-            and norm(b.orelse[0]).replace(" ", "") == "info.times[1]=info.times[0]"
-    ctx.ob("FileSet.get_info.no_end", ok_end, fact, "end = start + time_coverage when that is a timedelta (sum, not difference), else end = start", node=el or t, func=f)
-    # these defaults apply after both sources were consulted and before the cache store
     flow = Flow(f)
+    S, E = "info.times[0] is None", "info.times[1] is None"
+    TC = "isinstance(self.time_coverage, timedelta)"
+    def rs(t_):
+        return str(norm(flow.resolve(t_, at=t_, stop=("info",))))
+    if not any(S in rs(n.test) for n in walk_no_nested(f.node) if isinstance(n, ast.If)):
+        raise AnalysisError("get_info: branch on a missing start time not found")
     store = [st for st in flow.stmts if isinstance(st, ast.Assign) and norm(st.targets[0]).startswith("self.info_cache[")]
-    okd = bool(store) and flow.cfg.dominated_by(flow.node_of(store[0]), set(flow.cfg.nodes(t)))
-    ctx.ob("FileSet.get_info.defaults_before_store", okd, "defaulting dominates the cache store: %s" % okd, "the cached info already has both times", node=t, func=f)
+    if not store:
+        raise AnalysisError("get_info: store into the info cache not found")
+    # effects of the defaulting block, per combination of missing times
+    cand = [st for st in flow.stmts if (isinstance(st, ast.Raise) and flow._order(st) < flow._order(store[0]))
+            or (isinstance(st, ast.Assign) and norm(st.targets[0]) in ("info.times", "info.times[1]", "info.times[0]") and flow._order(st) < flow._order(store[0])
+                and any(S in rs(t_) or E in rs(t_) for t_, _ in guard_chain(st, implicit=True)))]
+
+    def effects(assume):
+        out = []
+        for st in cand:
+            if flow.live_under(st, assume, stop=("info",)):
+                gs = guard_chain(st, implicit=True)
+                # only statements of the defaulting block (guarded by one of the two tests)
+                if not gs:
+                    continue
+                if isinstance(st, ast.Raise):
+                    if all(flow.decide_under(t_, assume, at=t_, stop=("info",)) is not None for t_, _ in gs if S in rs(t_) or E in rs(t_)) \
+                            and any(S in rs(t_) or E in rs(t_) for t_, _ in gs):
+                        out.append("raise " + (norm(st.exc.func) if isinstance(st.exc, ast.Call) else norm(st.exc) if st.exc else ""))
+                else:
+                    out.append("%s = %s" % (norm(st.targets[0]), norm(flow.resolve_under(st.value, assume, at=st, stop=("info",))).replace(" ", "")))
+        return out
+    both = effects({S: True, E: True})
+    no_start = effects({S: True, E: False})
+    ctx.ob("FileSet.get_info.no_start", both == ["info.times = [datetime.min,datetime.max]"] and no_start == ["raise ValueError"],
+           "no times: %s; end without start: %s" % (both, no_start),
+           "no times at all -> [datetime.min, datetime.max]; an end without a start -> ValueError", node=cand[0] if cand else f.node, func=f)
+    end_td = effects({S: False, E: True, TC: True})
+    end_no = effects({S: False, E: True, TC: False})
+    nothing = effects({S: False, E: False})
+    ok_end = end_td in (["info.times[1] = info.times[0]+self.time_coverage"], ["info.times[1] = self.time_coverage+info.times[0]"]) \
+        and end_no == ["info.times[1] = info.times[0]"] and nothing == []
+    ctx.ob("FileSet.get_info.no_end", ok_end, "end missing, timedelta coverage: %s; otherwise: %s; both present: %s" % (end_td, end_no, nothing),
+           "end = start + time_coverage when that is a timedelta (sum, not difference), else end = start", node=cand[0] if cand else f.node, func=f)
+    # these defaults apply after both sources were consulted and before the cache store
+    okd = bool(cand) and all(flow._order(st) < flow._order(store[0]) for st in cand)
+    upd = [c for c in calls_in(f.node, "update") if norm(c.func) == "info.update"]
+    okd = okd and all(flow._order(enclosing_stmt(c)) < min(flow._order(st) for st in cand) for c in upd)
+    ctx.ob("FileSet.get_info.defaults_before_store", okd, "defaulting after the updates and before the cache store: %s" % okd, "the cached info already has both times", node=store[0], func=f)
 
 
 def rule_merge(ctx):
@@ -368,7 +431,14 @@ def rule_merge(ctx):
     flow = Flow(f)
     fn = [st for st in f.body if isinstance(st, ast.If) and norm(st.test).replace('"', "'") == "retrieve_via in ('filename', 'both')"]
     hd = [st for st in f.body if isinstance(st, ast.If) and "'handler'" in norm(st.test).replace('"', "'")]
-    okf = bool(fn) and any(norm(c) == "info.update(filename_info)" for c in calls_in(fn[0], "update"))
+    okf = False
+    if fn:
+        for c in calls_in(fn[0], "update"):
+            if norm(c.func) == "info.update" and len(c.args) == 1:
+                v = flow.resolve(c.args[0], at=c, depth=3, stop=("info",))
+                t = str(norm(v))
+                # the update argument is the FileInfo built from the parsed name of this file
+                okf = isinstance(v, ast.Call) and dotted(v.func) == "FileInfo" and "self.parse_filename(info.path)" in t and "_retrieve_time_coverage(" in t
     ctx.ob("FileSet.get_info.filename", okf, "%s" % (norm(fn[0].test) if fn else None), "under 'filename'/'both' the parsed placeholders update the info", node=fn[0] if fn else f.node, func=f)
     okh = bool(hd) and norm(hd[0].test).replace('"', "'") == "retrieve_via in ('handler', 'both')" \
         and any(norm(c) == "info.update(handler_info)" for c in calls_in(hd[0], "update")) \
@@ -381,7 +451,6 @@ def rule_merge(ctx):
     u = ctx.func(HCOMMON, "FileInfo.update")
     other = u.params[1]
     stores = [st for st in walk_no_nested(u.node) if isinstance(st, ast.Assign) and norm(st.targets[0]).startswith("self.times")]
-    stores.sort(key=lambda n: (n.lineno, n.col_offset))
     bad = []
     seen = {}
     for st in stores:
@@ -390,7 +459,8 @@ def rule_merge(ctx):
             raise AnalysisError("FileInfo.update: store %s is not one of self.times[0] / self.times[1]" % norm(st))
         j = t.slice.value
         src = "%s.times[%d]" % (other, j)
-        if norm(st.value) != src:
+        uflow = Flow(u) if "uflow" not in dir() else uflow
+        if norm(uflow.resolve(st.value, at=st, stop=(other,))) != src:
             bad.append("%s (wanted %s)" % (norm(st), src))
             continue
         guards = guard_chain(st)
@@ -405,7 +475,7 @@ def rule_merge(ctx):
                 for k in (0, 1):
                     env["%s.times[%d]" % (other, k)] = val if k == j else 7      # the OTHER time is present: a test on it cannot protect this one
                 try:
-                    table[(isnone, ign)] = all(bool(Interp(env).ev(g)) == pol for g, pol in guards)
+                    table[(isnone, ign)] = all(bool(Interp(env).ev(uflow.resolve(g, at=g, stop=(other,)))) == pol for g, pol in guards)
                 except AnalysisError as e:
                     raise AnalysisError("FileInfo.update: guard of %s outside the model: %s" % (norm(st), e))
         want = {(True, True): False, (True, False): True, (False, True): True, (False, False): True}
